@@ -153,6 +153,10 @@ func (cse *connectivityStateEvaluator) recordTransition(
 // subConnRef keeps reference to the real SubConn with its
 // connectivity state, affinity count and streams count.
 type subConnRef struct {
+	// mu guards subConn, lastResp, refreshing and refreshCnt: they are written
+	// by balancer callbacks and by completion callbacks of RPCs, and read by
+	// pickers, all on different goroutines.
+	mu          sync.RWMutex
 	subConn     balancer.SubConn
 	stateSignal chan struct{} // This channel is closed and re-created when subConn or its state changes.
 	affinityCnt int32         // Keeps track of the number of keys bound to the subConn.
@@ -192,9 +196,39 @@ func (ref *subConnRef) deCallsInc() uint32 {
 }
 
 func (ref *subConnRef) gotResp() {
+	ref.mu.Lock()
 	ref.lastResp = time.Now()
-	atomic.StoreUint32(&ref.deCalls, 0)
 	ref.refreshCnt = 0
+	ref.mu.Unlock()
+	atomic.StoreUint32(&ref.deCalls, 0)
+}
+
+// getSubConn returns the current SubConn of the ref (it changes when the
+// subconn is refreshed).
+func (ref *subConnRef) getSubConn() balancer.SubConn {
+	ref.mu.RLock()
+	defer ref.mu.RUnlock()
+	return ref.subConn
+}
+
+// respInfo returns the time of the last response and the number of refreshes
+// since then.
+func (ref *subConnRef) respInfo() (time.Time, uint32) {
+	ref.mu.RLock()
+	defer ref.mu.RUnlock()
+	return ref.lastResp, ref.refreshCnt
+}
+
+func (ref *subConnRef) isRefreshing() bool {
+	ref.mu.RLock()
+	defer ref.mu.RUnlock()
+	return ref.refreshing
+}
+
+func (ref *subConnRef) setRefreshing(v bool) {
+	ref.mu.Lock()
+	ref.refreshing = v
+	ref.mu.Unlock()
 }
 
 type gcpBalancer struct {
@@ -510,7 +544,13 @@ func (gb *gcpBalancer) UpdateSubConnState(sc balancer.SubConn, scs balancer.SubC
 		delete(gb.scRefs, oldSc)
 		delete(gb.scStates, oldSc)
 		gb.scRefs[sc] = scRef
+		scRef.mu.Lock()
 		scRef.subConn = sc
+		scRef.lastResp = time.Now()
+		scRef.refreshing = false
+		scRef.refreshCnt++
+		scRef.mu.Unlock()
+		atomic.StoreUint32(&scRef.deCalls, 0)
 		// Affinity and fallback mappings follow the channel to its fresh SubConn.
 		for k, v := range gb.affinityMap {
 			if v == oldSc {
@@ -522,10 +562,6 @@ func (gb *gcpBalancer) UpdateSubConnState(sc balancer.SubConn, scs balancer.SubC
 				gb.fallbackMap[k] = sc
 			}
 		}
-		scRef.deCalls = 0
-		scRef.lastResp = time.Now()
-		scRef.refreshing = false
-		scRef.refreshCnt++
 		gb.cc.RemoveSubConn(oldSc)
 	}
 
@@ -596,22 +632,22 @@ func (gb *gcpBalancer) UpdateSubConnState(sc balancer.SubConn, scs balancer.SubC
 // refresh initiates a new SubConn for a specific subConnRef and starts connecting.
 // If the refresh is already initiated for the ref, then this is a no-op.
 func (gb *gcpBalancer) refresh(ref *subConnRef) {
-	if ref.refreshing {
+	if ref.isRefreshing() {
 		return
 	}
 	gb.mu.Lock()
 	defer gb.mu.Unlock()
-	if ref.refreshing {
+	if ref.isRefreshing() {
 		return
 	}
-	ref.refreshing = true
+	ref.setRefreshing(true)
 	sc, err := gb.cc.NewSubConn(
 		gb.addrs,
 		balancer.NewSubConnOptions{HealthCheckEnabled: healthCheckEnabled},
 	)
 	if err != nil {
 		gb.log.Errorf("failed to create a replacement SubConn with NewSubConn: %v", err)
-		ref.refreshing = false
+		ref.setRefreshing(false)
 		return
 	}
 	gb.refreshingScRefs[sc] = ref
